@@ -498,7 +498,7 @@ fn addr5() -> impl Strategy<Value = Addr5S> {
     prop_oneof![
         3 => any::<[u8; 4]>().prop_map(Addr5S::V4),
         4 => domain().prop_map(Addr5S::Domain),
-        3 => prop_oneof![any::<[u8; 16]>(), Just([0u8; 16]), Just({ let mut a = [0u8; 16]; a[15] = 1; a }), any::<[u8; 4]>().prop_map(|v| { let mut a = [0u8; 16]; a[10] = 0xff; a[11] = 0xff; a[12..].copy_from_slice(&v); a })].prop_map(Addr5S::V6),
+        3 => v6_bytes().prop_map(Addr5S::V6),
     ]
 }
 fn req() -> impl Strategy<Value = Req> {
@@ -522,7 +522,7 @@ fn sockaddr() -> impl Strategy<Value = SockAddrS> {
     let p = prop_oneof![prop::sample::select(vec![0u16, 1, 80, 255, 256, 65535]), any::<u16>()];
     prop_oneof![
         (prop_oneof![any::<[u8; 4]>(), Just([0u8; 4]), Just([255u8; 4]), Just([1, 2, 3, 4]), Just([127, 0, 0, 1])], p.clone()).prop_map(|(a, p)| SockAddrS::V4(a, p)),
-        (prop_oneof![any::<[u8; 16]>(), Just([0u8; 16]), Just([255u8; 16])], p).prop_map(|(a, p)| SockAddrS::V6(a, p)),
+        (v6_bytes(), p).prop_map(|(a, p)| SockAddrS::V6(a, p)),
     ]
 }
 fn outcase() -> impl Strategy<Value = OutCase> {
@@ -562,4 +562,27 @@ pub fn run(ctx: &Ctx, rep: &mut Report) {
         check_req,
     );
     ctx.prop(rep, "replies-udp", t.pick(300_000, 4_000_000), 300, outcase, check_out);
+}
+
+/// IPv6 addresses: arbitrary, and the special forms that address-handling code likes to "normalise" - unspecified, loopback,
+/// all ones, IPv4-mapped (::ffff:a.b.c.d), IPv4-compatible (::a.b.c.d), NAT64 (64:ff9b::a.b.c.d), 6to4 (2002:a.b.c.d::)
+fn v6_bytes() -> impl Strategy<Value = [u8; 16]> {
+    let embed = |prefix: [u8; 12]| {
+        any::<[u8; 4]>().prop_map(move |v| {
+            let mut a = [0u8; 16];
+            a[..12].copy_from_slice(&prefix);
+            a[12..].copy_from_slice(&v);
+            a
+        })
+    };
+    prop_oneof![
+        4 => any::<[u8; 16]>(),
+        1 => Just([0u8; 16]),
+        1 => Just({ let mut a = [0u8; 16]; a[15] = 1; a }),
+        1 => Just([255u8; 16]),
+        3 => embed([0, 0, 0, 0, 0, 0, 0, 0, 0, 0, 0xff, 0xff]),
+        1 => embed([0; 12]),
+        1 => embed([0, 0x64, 0xff, 0x9b, 0, 0, 0, 0, 0, 0, 0, 0]),
+        1 => any::<[u8; 4]>().prop_map(|v| { let mut a = [0u8; 16]; a[0] = 0x20; a[1] = 0x02; a[2..6].copy_from_slice(&v); a }),
+    ]
 }
